@@ -129,6 +129,46 @@ def vh_to_file(args, outpath, stdin_path=None, race=False, timeout=3600, env=Non
     return outpath
 
 
+def vh_resilient(args, outpath, stdin_path=None, timeout=3600, env=None, max_crashes=40):
+    """Like vh_to_file for harness commands that announce each risky call ({"begin": n}): if the process dies (fatal
+    runtime error inside the code under test), the call that killed it is identified from the last announcement,
+    confirmed by a second run dying at the same place, and reported by the harness as outcome "crash" on the next
+    run (VERIF_SKIP).  Returns the list of crashed call numbers."""
+    skips = []
+    exe = build_harness()
+    while True:
+        e = dict(os.environ)
+        e["VERIF_SEED"] = str(seed())
+        e["VERIF_SKIP"] = ",".join(map(str, skips))
+        if env:
+            e.update(env)
+        with open(outpath, "w") as fo:
+            fi = open(stdin_path) if stdin_path else subprocess.DEVNULL
+            try:
+                p = subprocess.run([exe] + args, stdin=fi, stdout=fo, stderr=subprocess.PIPE, text=True, timeout=timeout, env=e)
+            except subprocess.TimeoutExpired:
+                raise Infra("harness timed out: vh " + " ".join(args)[:200])
+            finally:
+                if stdin_path:
+                    fi.close()
+        if p.returncode == 0:
+            # drop the announcements
+            lines = [l for l in open(outpath) if not l.startswith('{"begin"')]
+            open(outpath, "w").writelines(lines)
+            return skips
+        last = None
+        for l in open(outpath):
+            if l.startswith('{"begin"'):
+                try:
+                    last = json.loads(l)["begin"]
+                except ValueError:
+                    pass
+        if last is None or last in skips or len(skips) >= max_crashes or not re.search(r"fatal error|panic|out of memory|signal", p.stderr):
+            raise Infra("harness failed (%d): vh %s\n%s" % (p.returncode, " ".join(args)[:200], p.stderr[-3000:]))
+        log("harness died during call #%d (%s); re-running with that call reported as a crash" % (last, (re.findall(r"fatal error: [^\n]*|panic: [^\n]*", p.stderr) or ["?"])[0]))
+        skips.append(last)
+
+
 # ----------------------------------------------------------------------------- TLC
 
 import threading
